@@ -974,6 +974,8 @@ pub fn replay<F: BoolExt>(args: &Args) {
         let cache = cache_override.unwrap_or(r["cache"].as_u64().unwrap() as usize);
         let thr = thr_override.unwrap_or(r["thr"].as_u64().unwrap() as u32);
         let tag = r["tag"].as_str().unwrap_or("");
+        // with more than one worker the concurrent variant of set_var_order is used (hook)
+        oxidd_reorder::verif::FORCE_CONCURRENT.store(thr > 1, std::sync::atomic::Ordering::Relaxed);
         let mut s: Session<F> = Session::new_tagged(&mut out, cap, cache, thr, tag);
         if let Some(d) = split {
             s.mref.with_manager_shared(|m| F::set_split_depth(m, Some(d)));
@@ -1363,6 +1365,15 @@ pub fn reorder<F: BoolExt>(args: &Args) {
         let mut s: Session<F> = Session::new(&mut out, 8192, 256, if chain % 2 == 1 { threads.max(2) } else { threads });
         s.add_vars(n);
         random_funcs(&mut s, &mut rng, 12);
+        // half of the chains have one or two variables that occur in no node (empty levels
+        // take part in the reordering without any level swap)
+        let n = if chain % 4 >= 2 {
+            let k = 1 + rng.below(2) as u32;
+            s.add_vars(k);
+            n + k
+        } else {
+            n
+        };
         let len = 2 + rng.below(4);
         for _ in 0..len {
             if s.dead {
